@@ -95,6 +95,46 @@ def node_link(v, w, seeds, with_model=True):
     v.cov["node_link_runs"] = len(seeds)
 
 
+def wide_run(w, thorough, scn_path=None, stress_index=None, stress_seed=None):
+    if stress_index is not None:
+        # the fetcher's queue is a HashMap with a per-process random state: the same run is repeated a few times
+        for _ in range(20):
+            found, n, drift = _wide_run(w, thorough, scn_path, stress_index, stress_seed)
+            if found:
+                break
+        return found, n, drift
+    return _wide_run(w, thorough, scn_path, stress_index, stress_seed)
+
+
+def _wide_run(w, thorough, scn_path=None, stress_index=None, stress_seed=None):
+    """Ordering stress with 5 free slots: queued entries whose closest members cannot be started (another holder's
+    fetch of the same record version is in flight), several dozen queued entries. Returns (violations, steps, drift)."""
+    trace_w = os.path.join(w, "trace-wide.ndjson")
+    if stress_index is not None:
+        run_driver("drv_fetcher", ["--free", 5, "--stress", 1, "--stress-from", stress_index, "--steps", 30, "--out", trace_w], w,
+                   env={"VERIF_SEED": str(stress_seed if stress_seed is not None else seed())})
+    elif scn_path:
+        run_driver("drv_fetcher", ["--scenarios", scn_path, "--free", 5, "--out", trace_w], w)
+    else:
+        run_driver("drv_fetcher", ["--free", 5, "--stress", 1500 if thorough else 150, "--steps", 30, "--out", trace_w], w)
+    rep_w = validate_trace("replfetcher", "ReplFetcherTrace", "ReplFetcherTrace_wide.cfg", trace_w, w, timeout=3400, heap="6g")
+    ev_w = read_ndjson(trace_w)
+    found, drift = [], []
+    for x in rep_w["violations"]:
+        e = ev_w[x["line"] - 1]
+        if x["clause"] == "Malformed":
+            raise ToolError("malformed trace line %d: %s" % (x["line"], e))
+        s0 = max(i for i in range(x["line"]) if ev_w[i]["ev"] == "Reset")
+        steps_w = [{k: q[k] for k in ("ev", "h", "list", "held", "k", "t", "rg", "e") if q.get(k) is not None} for q in ev_w[s0 + 1:x["line"]]]
+        found.append((x["clause"], "ordering-stress run (5 free slots), step %s at trace line %d: ret=%s og=%s tf=%s" % (
+            e["ev"], x["line"], e.get("ret"), e.get("og"), e.get("tf")),
+            {"area": "replfetcher", "free": 5, "stress_index": ev_w[s0].get("index"), "seed": seed(), "scenario": steps_w, "event": e}))
+    for ln in rep_w.get("drift", []):
+        e = ev_w[ln - 1]
+        drift.append({"line": ln, "ev": e["ev"], "og": e["og"], "tf": e["tf"], "exp": e.get("exp"), "run": "wide"})
+    return found, sum(1 for e in ev_w if e["ev"] not in ("Reset", "RoundsDone")), drift
+
+
 def run(prop, tier, replay=None):
     v = Verdict(prop, tier, replaying=replay is not None)
     w = workdir(prop)
@@ -116,7 +156,7 @@ def run(prop, tier, replay=None):
             shutil.copy(scn_path, cache)
     build(PACKAGES)
     trace = os.path.join(w, "trace.ndjson")
-    args = ["--scenarios", scn_path, "--out", trace]
+    args = ["--scenarios", scn_path, "--out", trace] if not (replay and replay.get("free")) else ["--out", trace]
     if not replay:
         args += ["--random", 2000 if thorough else 150, "--steps", 40, "--rounds", 1000 if thorough else 100]
     run_driver("drv_fetcher", args, w)
@@ -136,7 +176,7 @@ def run(prop, tier, replay=None):
         for e in events[s + 1:line]:
             if e["ev"] in ("Reset", "RoundsDone"):
                 break
-            steps.append({k: e[k] for k in ("ev", "h", "list", "held", "k", "t", "rg", "e")})
+            steps.append({k: e[k] for k in ("ev", "h", "list", "held", "k", "t", "rg", "e") if e.get(k) is not None})
         return steps
 
     for x in rep["violations"]:
@@ -146,9 +186,13 @@ def run(prop, tier, replay=None):
         v.violation(x["clause"], "step %s at trace line %d (src=%s): ret=%s og=%s tf=%s failed=%s" % (
             e["ev"], x["line"], e.get("src"), e.get("ret"), e.get("og"), e.get("tf"), e.get("failed")),
             {"area": "replfetcher", "scenario": scenario_of(x["line"]), "event": e})
-    for ln in rep.get("drift", []):
-        e = events[ln - 1]
-        v.drift.append({"line": ln, "ev": e["ev"], "og": e["og"], "tf": e["tf"], "exp": e.get("exp")})
+    if not replay or replay.get("free"):
+        found, nsteps, drift_w = wide_run(w, thorough, scn_path if replay else None,
+                                          replay.get("stress_index") if replay else None, replay.get("seed") if replay else None)
+        for clause, msg, payload in found:
+            v.violation(clause, msg, payload)
+        v.drift.extend(drift_w)
+        v.cov["stress_steps"] = nsteps
     runs = sum(1 for e in events if e["ev"] == "Reset")
     steps = [e for e in events if e["ev"] not in ("Reset", "RoundsDone")]
     distinct = set(json.dumps([e[k] for k in ("ev", "h", "list", "held", "k", "t", "rg", "e", "og", "tf")], sort_keys=True) for e in steps
